@@ -116,7 +116,7 @@ def _dedup_exp(r: Rat) -> Rat:
     return r
 
 
-def _check_update(ctx, ci, label, extra=None, comps=COMPS, expect_keys=None):
+def _check_update(ctx, ci, label, extra=None, comps=COMPS, expect_keys=None, rule=None):
     """Interpret ci.update for both scaling modes and both directions."""
     n_checked = 0
     for mode, inverse in itertools.product(("continuous", "pulse"), (False, True)):
@@ -134,7 +134,7 @@ def _check_update(ctx, ci, label, extra=None, comps=COMPS, expect_keys=None):
             if not isinstance(arr, NdArr):
                 raise AnalysisError(f"{label}.update[{key}] is not an array")
             if len(arr.shape) != 3 or arr.shape[0] != 1 or arr.shape[1] != 2:
-                ctx.ob("R17.3", f"{ci.qualname}.update:{key}:layout", False, "state entry must be (1, num_freqs, num_components, *spatial)", arr.shape, "(1, 2, C)")
+                ctx.ob(rule or "R17.3", f"{ci.qualname}.update:{key}:layout", False, "state entry must be (1, num_freqs, num_components, *spatial)", arr.shape, "(1, 2, C)")
                 continue
             ncomp = arr.shape[2]
             sel = [c for c in COMPS if c in comps]
@@ -155,7 +155,7 @@ def _check_update(ctx, ci, label, extra=None, comps=COMPS, expect_keys=None):
                     bad = (k, mode, inverse, delta.fmt()[:200], (want_comp * fac).fmt()[:200] if want_comp is not None else None)
             n_checked += 1
             ctx.ob(
-                "R17.3" if label != "PhasorDetector" else "R17.1",
+                rule or ("R17.3" if label != "PhasorDetector" else "R17.1"),
                 f"{ci.qualname}.update:{key}:{mode}:{'inverse' if inverse else 'forward'}",
                 okc and bad is None,
                 "each entry grows by component * exp(+i*2*pi*f*n*dt) * scale * window[n] (subtracted when inverse)"
